@@ -227,12 +227,48 @@ def _run_derived(reg: Registry, I: Interp, c: Contract, fref: FuncRef):
         reg.assume_clause(I, reg.eval_clause(I, src, pfr))
     for src in c.ensures:
         reg.assume_clause(I, reg.eval_clause(I, src, pfr))
-    if ctx._check() == z3.unsat:
+    if _check_with_watchdog(ctx) == z3.unsat:
         ctx.obligations.append(Obligation(f"{ctx.func_label}/derived-hypotheses-satisfiable", "vacuity",
                                           "failed", note="requires + ensures are contradictory"))
         raise PathEnd()
     for k, src in enumerate(c.derived):
         reg.prove_clause(I, f"derived#{k}", reg.eval_clause(I, src, pfr), "derived", pfr)
+
+
+def _check_with_watchdog(ctx, nominal_s=40):
+    """The satisfiability check of (requires + ensures) is a model SEARCH over non-linear real arithmetic; z3's nla
+    core can spend minutes in bignum arithmetic there without consuming rlimit or honouring its timeout.  It runs in a
+    forked child that is killed after a wall-clock limit; no answer = unknown (the guard only ever acts on `unsat`)."""
+    import os
+    import select
+    import signal
+    from .budget import load_factor
+    r, w = os.pipe()
+    pid = os.fork()
+    if pid == 0:
+        code = b"?"
+        try:
+            os.close(r)
+            res = ctx._check()
+            code = b"u" if res == z3.unsat else (b"s" if res == z3.sat else b"?")
+        except BaseException:      # noqa: BLE001
+            pass
+        try:
+            os.write(w, code)
+        finally:
+            os._exit(0)
+    os.close(w)
+    try:
+        ready, _, _ = select.select([r], [], [], nominal_s * load_factor())
+        data = os.read(r, 1) if ready else b""
+    finally:
+        os.close(r)
+        try:
+            os.kill(pid, signal.SIGKILL)
+        except OSError:
+            pass
+        os.waitpid(pid, 0)
+    return z3.unsat if data == b"u" else (z3.sat if data == b"s" else z3.unknown)
 
 
 class YieldLog:
